@@ -97,6 +97,17 @@ def oracle_C01(inp):
     got = observe(x)
     if got != exp:
         return ["Sid(%r): expected %r, got %r" % (s, exp, got)]
+    # the typing is a function of the string: a caller who edits the dictionary `fields` handed out
+    # and asks again gets the same answer
+    try:
+        f = x.fields
+        f.clear()
+        f["project"] = "edited"
+        got2 = observe(Sid(s))
+    except BaseException as e:  # noqa
+        return ["Sid(%r) a second time raised %s: %s" % (s, type(e).__name__, e)]
+    if got2 != exp:
+        return ["Sid(%r) created again after the caller edited the dictionary returned by .fields: expected %r, got %r" % (s, exp, got2)]
     return []
 
 
@@ -120,9 +131,20 @@ def oracle_C02(inp):
     s = inp["s"]
     rng = random.Random(inp.get("seed", 0))
     out = []
+    for pre in inp.get("pre", []):      # Sid OBJECTS of other types of the same string handed to Sid() before
+        try:
+            Sid(Sid(pre))
+        except BaseException as e:  # noqa
+            return ["Sid(Sid(%r)) raised %s: %s" % (pre, type(e).__name__, e)]
     x = Sid(s)
+    if inp.get("pre") and x and ":" not in s and "?" not in s and not natural(x):
+        return ["after Sid(Sid(%r)), the plain string %r is typed %r, not by its first accepting template" % (inp["pre"], s, x.type)]
     if not x or ":" in s or "?" in s or not natural(x):
         return []
+    for pre in inp.get("pre", []):      # and a typed Sid object keeps its type when it goes through Sid()
+        z = Sid(pre)
+        if z and Sid(z).type != z.type:
+            out.append("Sid(Sid(%r)) has type %r, the Sid had %r" % (pre, Sid(z).type, z.type))
     y = Sid(x.uri)
     if not same(x, y):
         out.append("Sid(uri) differs for %r: %r vs %r" % (s, observe(x), observe(y)))
